@@ -90,6 +90,20 @@ YScan2(y, up, imag, k, fuel) ==
            nxt == IF up THEN FqAdd(y, One) ELSE FqSub(y, One)
        IN IF c[1] THEN << <<c[2], yy>> >> \o YScan2(nxt, up, imag, k - 1, fuel - 1) ELSE YScan2(nxt, up, imag, k, fuel - 1)
 
+(* G2, one coefficient of y EXACTLY at the boundary h = (q-1)/2 or (q+1)/2 and the other one generic   *)
+(* (c = 1, 2, ...): the comparison "is y the larger root" is decided by y1 against (q-1)/2, and on a     *)
+(* tie by y0                                                                                             *)
+RECURSIVE YScanMix(_,_,_,_,_)
+YScanMix(h, c, inC1, k, fuel) ==
+  IF k = 0 \/ fuel = 0 THEN <<>>
+  ELSE LET yy == IF inC1 THEN <<c, h>> ELSE <<h, c>>
+           r == Cbrt2(F2Sub(F2Sqr(yy), <<Four, Four>>))
+       IN IF r[1] THEN << <<r[2], yy>> >> \o YScanMix(h, FqAdd(c, One), inC1, k - 1, fuel - 1)
+          ELSE YScanMix(h, FqAdd(c, One), inC1, k, fuel - 1)
+BoundaryMix2 == YScanMix(HalfQ, One, TRUE, 3, 60) \o YScanMix(FqAdd(HalfQ, One), One, TRUE, 3, 60)
+                \o YScanMix(HalfQ, One, FALSE, 2, 60) \o YScanMix(FqAdd(HalfQ, One), One, FALSE, 2, 60)
+ASSUME Len(BoundaryMix2) = 10 /\ \A i \in 1..10 : E2!OnCurve(BoundaryMix2[i])
+
 BoundaryPts1 == YScan1(HalfQ, FALSE, 3, 60) \o YScan1(FqAdd(HalfQ, One), TRUE, 3, 60)
                 \o YScan1(<<3>>, TRUE, 2, 60) \o YScan1(FqNeg(<<3>>), FALSE, 2, 60)
 (* several ordinates per class: which root a decompressor's square root happens to return varies *)
@@ -123,7 +137,7 @@ Script(g) ==
       mx == IF g = "G1" THEN Mixed1 ELSE Mixed2
       iv == IF g = "G1" THEN Inv1 ELSE Inv2
       nr == IF g = "G1" THEN NoRoot1(FromInt(1000), 6) ELSE NoRoot2(<<FromInt(1000), <<7>>>>, 4)
-      bp == IF g = "G1" THEN BoundaryPts1 ELSE BoundaryPts2
+      bp == IF g = "G1" THEN BoundaryPts1 ELSE BoundaryPts2 \o BoundaryMix2
   IN FlattenSeq([i \in 1..5 |-> CurveOps(g, tp[i], "torsion-prime-order")])
      \o FlattenSeq([i \in 1..Len(mx) |-> CurveOps(g, mx[i], "torsion-mixed")])
      \o FlattenSeq([i \in 1..Len(iv) |-> DecOps(g, iv[i], "invalid-curve-order-r")])
